@@ -551,6 +551,14 @@ func (x *Explorer) input(name string, w int) Value {
 
 func (in *Interp) simpFix(t *term.Term) Value { return t }
 
+// noteInput records a concrete environment fact among the inputs of the path (for native replay).
+func (x *Explorer) noteInput(name string, v uint64) {
+	if _, ok := x.inputSet[name]; !ok {
+		x.inputs = append(x.inputs, InputRec{Name: name, W: 64})
+	}
+	x.inputSet[name] = x.st().BV(64, v)
+}
+
 func (x *Explorer) inputsUnder(m term.Model) []InputRec {
 	out := make([]InputRec, len(x.inputs))
 	for i, ir := range x.inputs {
